@@ -9,9 +9,10 @@ import (
 // C05 / C06 — request builder: batching and extraction.
 
 // Field classes (concrete per query, everything else symbolic):
-//   0 Uint16 (1 register)   1 Uint32 (2)   2 Float64 (4)   3 String (length symbolic 1..255)
-//   4 Coil                  5 Bit (bit number symbolic 0..255, >15 is invalid)
-//   6 invalid type (0 or above 14, symbolic)     7 Int8 (1 register, high/low symbolic)
+//
+//	0 Uint16 (1 register)   1 Uint32 (2)   2 Float64 (4)   3 String (length symbolic 1..255)
+//	4 Coil                  5 Bit (bit number symbolic 0..255, >15 is invalid)
+//	6 invalid type (0 or above 14, symbolic)     7 Int8 (1 register, high/low symbolic)
 var vhServers = []string{"hostA:502", "hostB:502"}
 
 // adversarial target names for the grouping key: server strings that are prefixes of each other and unit ids whose
